@@ -15,7 +15,7 @@ class C12(ProgramProperty):
             "canonical CURIE prefixes / synonyms / unknown), values are unused strings, synonyms of the same record, "
             "URI prefixes owned by other records, or a key (transitive); two keys may hit one record. remap_uri_prefixes "
             "is applied once, rewire twice (idempotence); records are read and compress / expand compared before and "
-            "after. Non-trivial = some value is already known to the converter (clash or synonym upgrade).")
+            "after. Non-trivial = some value is already known to the converter (clash or synonym upgrade). In 35 % of the cases input and results live on (gen.live_tail): each is extended by a merge, all are observed again, and both derivations are repeated on the curated input. An injective mapping must never be rejected (except TransitiveError).")
 
     def budget(self, tier):
         return 4000 if tier == "quick" else 150000
